@@ -897,6 +897,21 @@ class MiniEval:
             self.env[st.name] = Closure(st, self.env, self)
         elif isinstance(st, ast.Match):
             self._match(st)
+        elif isinstance(st, ast.Delete):
+            for t in st.targets:
+                if isinstance(t, ast.Name) and t.id in self.env:
+                    del self.env[t.id]
+                elif isinstance(t, ast.Subscript):
+                    base = self.ev(t.value)
+                    if not isinstance(base, (list, dict)):
+                        raise AnalysisError(f"{self.where}: `{u(st)}` on an abstract value")
+                    key = self.ev(t.slice)
+                    try:
+                        del base[key]
+                    except (KeyError, IndexError, TypeError) as ex:
+                        raise Raised(f"{type(ex).__name__}: {ex}", st)
+                else:
+                    raise AnalysisError(f"{self.where}: statement form not supported by the evaluator: `{u(st)[:80]}`")
         else:
             raise AnalysisError(f"{self.where}: statement form not supported by the evaluator: `{u(st)[:80]}`")
 
